@@ -1,7 +1,7 @@
 (* Extraction of the executable model to OCaml.  ExtrOcamlBasic only: bool, option, unit,
    list, prod, sumbool map to OCaml's; Z, positive, N, nat, comparison stay Coq datatypes. *)
 From Coq Require Import ExtrOcamlBasic.
-From S3db Require Import Base KeyOrder RowMerge Tree.
+From S3db Require Import Base KeyOrder RowMerge Tree Store KvProto Inst.
 Extraction Language OCaml.
 Extraction "model.ml"
   Base.bytes_cmp Base.cmp_to_Z
@@ -10,4 +10,9 @@ Extraction "model.ml"
   KeyOrder.order KeyOrder.order_exact KeyOrder.layer KeyOrder.crc64 KeyOrder.fmt_float_b KeyOrder.safe_key KeyOrder.order_t
   RowMerge.merge_rows RowMerge.merge_values RowMerge.last_write_wins RowMerge.abs_row RowMerge.crdt_update
   RowMerge.crdt_visible RowMerge.crdt_is_tombstoned RowMerge.mk_set RowMerge.mk_tomb
-  Tree.t_get Tree.t_insert Tree.t_delete Tree.merge_into Tree.lww_f.
+  Tree.t_get Tree.t_insert Tree.t_delete Tree.merge_into Tree.lww_f
+  Store.run Store.empty_bucket Store.no_faults Store.o_names
+  KvProto.open KvProto.commit KvProto.kv_set KvProto.kv_tombstone KvProto.kv_get KvProto.kv_is_tombstoned
+  KvProto.kv_is_dirty KvProto.kv_remove_tombstones KvProto.kv_roots KvProto.kv_dump KvProto.kv_diff
+  KvProto.delete_historic KvProto.trace_history KvProto.raw_diff
+  Inst.cfg_plain Inst.cfg_rows Inst.obj_eqb_plain Inst.obj_eqb_rows Inst.run_plain Inst.run_rows.
